@@ -58,3 +58,14 @@ func ReadBack(path string) ([]byte, bool) {
 	}
 	return d, true
 }
+
+// Real-file-system helpers for harnesses that drive code walking directories. The engine treats
+// them as no-ops (its model of the walker reads the tree description the harness keeps).
+func FSEnterTemp(tag string) {
+	dir := scratchPath(tag) + "_tree"
+	os.RemoveAll(dir)
+	os.MkdirAll(dir, 0755)
+	os.Chdir(dir)
+}
+func FSMkdir(p string) { os.MkdirAll(p, 0755) }
+func FSTouch(p string) { os.WriteFile(p, []byte("x"), 0644) }
